@@ -435,8 +435,14 @@ func (e *ControllerEngine) StartWatches(name string, ws ...Watch) error {
 			return errors.Wrapf(err, "cannot start %q watch for %q", wid.Type, wid.GVK)
 		}
 
-		// Record that we're now running this source.
+		// Record that we're now running this source, and that its informer is
+		// active. The caller may supply the same watch more than once - e.g.
+		// one watch per composed resource, for two resources of one kind. We
+		// listed the active informers before we started this watch, so without
+		// this the second one would look like a watch that lost its informer.
+		// We'd start it again, and leak the event handler of the first.
 		c.sources[wid] = src
+		activeInformer[wid.GVK] = true
 
 		e.log.Debug("Started watching GVK", "controller", name, "watch-type", wid.Type, "watched-gvk", wid.GVK)
 	}
